@@ -11,9 +11,9 @@ NAME = "gensim"
 def budget(prop, tier):
     if prop == "C15":
         return {"runs": 3000 if tier == "quick" else 200000, "chunk": 25,
-                "wall": 200 if tier == "quick" else 3300, "hang": 900}
+                "wall": 200 if tier == "quick" else 3300, "hang": 400}
     return {"runs": 2000 if tier == "quick" else 100000, "chunk": 20,
-            "wall": 200 if tier == "quick" else 3300, "hang": 900}
+            "wall": 200 if tier == "quick" else 3300, "hang": 400}
 
 
 def extra(prop, tier):
